@@ -124,6 +124,9 @@ def run(ctx):
                 if isinstance(v, ast.BoolOp) and isinstance(v.op, ast.Or) and len(v.values) == 2 \
                         and norm(v.values[0]) == f'{tv}.conf_if_hooked' and dotted(v.values[1]) == acc_var:
                     fold_ok = True
+                if isinstance(v, ast.IfExp) and norm(v.body) == f'{tv}.conf_if_hooked' and dotted(v.orelse) == acc_var \
+                        and norm(v.test) in (f'{tv}.conf_if_hooked', f'{tv}.conf_if_hooked is not None'):
+                    fold_ok = True
                 fdetail = norm(st)[:100]
             if isinstance(st, ast.If) and norm(st.test) == f'{tv}.conf_if_hooked is not None' and len(st.body) == 1 \
                     and isinstance(st.body[0], ast.Assign) and norm(st.body[0].value) == f'{tv}.conf_if_hooked':
@@ -156,8 +159,22 @@ def run(ctx):
         seed = [a for a in walk_shallow(it) if isinstance(a, (ast.Assign, ast.AnnAssign)) and a.value is not None
                 and 'claw_state.packages_trie_whitelist' == norm(a.value)]
         ok = ok and bool(seed)
+        p0 = it.args.args[0].arg if it.args.args else None
+        whole = dotted(lp[0].iter) == p0
+        if not whole:
+            ok = False
+        detail = '' if whole else f'the walk iterates `{norm(lp[0].iter)}`, not every component of `{p0}`'
+    else:
+        detail = 'no loop'
     ctx.ob('C06.R2', 'lookup:walk-from-root', tm.where(it),
-           'the walk descends component by component from the root and stops at the first missing one', ok, '')
+           'the walk descends component by component (all of them, in order) from the root and stops at the first '
+           'missing one', ok, detail)
+    callers_arg = [c for c in walk_shallow(g) if isinstance(c, ast.Call) and dotted(c.func) == 'iter_packages_trie']
+    split = [a for a in walk_shallow(g) if isinstance(a, ast.Assign) and norm(a.value) == f"{g.args.args[0].arg}.split('.')"]
+    ctx.ob('C06.R2', 'lookup:walk-over-dotted-name', tm.where(g),
+           'the walk receives the components of the looked-up package name',
+           bool(callers_arg) and bool(split) and all(c.args and dotted(c.args[0]) == dotted(split[0].targets[0]) for c in callers_arg),
+           f'{[norm(c) for c in callers_arg]}')
 
     # ---- R3 ----------------------------------------------------------------------
     ctx.rule('C06.R3', 'in the call tree of hook_packages\' critical section no registry store may precede a '
@@ -223,7 +240,11 @@ def run(ctx):
     bt = cm.defs.get('beartyping')
     ctx.require(bt is not None, 'anchor vanished: beartyping')
     tries = [t for t in walk_shallow(bt) if isinstance(t, ast.Try) and t.finalbody]
-    ctx.require(len(tries) == 1, 'beartyping: expected one try/finally')
+    ctx.ob('C06.R4', 'beartyping:restore-in-finally', cm.where(bt),
+           'the restore runs in a finally block (also when the body of the with statement raises)', len(tries) == 1,
+           f'{len(tries)} try/finally statements in beartyping()')
+    if len(tries) != 1:
+        return _r5(ctx, repo)
     t = tries[0]
     # write set
     writes = set()
@@ -256,6 +277,22 @@ def run(ctx):
     for w in sorted(writes):
         ctx.ob('C06.R4', f'beartyping:restores:{w}', cm.where(t), f'{w}, written inside the block, is restored on exit',
                w in restores, f'the finally block restores only {sorted(restores)}')
+    # (a') the root configuration is restored to the value saved before the block overwrote it
+    saved = {}
+    for st in t.body:
+        for a in ast.walk(st):
+            if isinstance(a, ast.Assign) and isinstance(a.targets[0], ast.Name) and norm(a.value).endswith('packages_trie_whitelist.conf_if_hooked'):
+                saved[a.targets[0].id] = a
+    rest = [a for st in t.finalbody for a in ast.walk(st) if isinstance(a, ast.Assign)
+            and norm(a.targets[0]).endswith('packages_trie_whitelist.conf_if_hooked')]
+    if 'whitelist-root-conf' in writes and rest:
+        ok = all(dotted(a.value) in saved for a in rest)
+        first_store = min((x.lineno for st in t.body for x in ast.walk(st) if isinstance(x, ast.Assign)
+                           and norm(x.targets[0]).endswith('packages_trie_whitelist.conf_if_hooked')), default=0)
+        ok = ok and all(saved[dotted(a.value)].lineno < first_store for a in rest if dotted(a.value) in saved)
+        ctx.ob('C06.R4', 'beartyping:restores-saved-root-conf', cm.where(rest[0]),
+               'the root configuration is restored to the value read before the block first overwrote it', ok,
+               f'restored with `{norm(rest[0].value)}`; saved copies: {sorted(saved)}')
     # (b)
     k = sum(1 for a in walk_shallow(hp) if isinstance(a, ast.Assign) and dotted(a.targets[0]) == 'conf'
             and isinstance(a.value, ast.Call) and dotted(a.value.func) == 'make_conf_hookable')
@@ -286,6 +323,10 @@ def run(ctx):
            'the normaliser is the identity on configurations with an explicit warning class and produces such a '
            'configuration otherwise', ok, '')
 
+    _r5(ctx, repo)
+
+
+def _r5(ctx, repo):
     # ---- R5 ----------------------------------------------------------------------
     ctx.rule('C06.R5', 'add_beartype_path_hook / remove_beartype_path_hook are idempotent (early return on the '
              'state they establish), keep claw_state.beartype_path_hook in step with sys.path_hooks, and '
